@@ -5,28 +5,77 @@ Import ListNotations.
 Local Open Scope Z_scope.
 
 (* ---------------------------------------------------------------- Ok v iff e evaluates to v *)
-Lemma try_ok_iff_l : forall chk a b e,
-  (s_variant (try_like chk (ceval a b e)) = s2l "Ok" <-> exists v, ceval a b e = inl v) /\
-  (forall v, ceval a b e = inl v ->
-     try_like chk (ceval a b e) = encode (mkC (s2l "Ok") (PInt v)) /\
-     decode (try_like chk (ceval a b e)) = mkC (s2l "Ok") (PInt v)) /\
-  (forall k, ceval a b e = inr k -> s_variant (try_like chk (ceval a b e)) = s2l "Err").
+(* for integer AND string operands; the value is carried unchanged unless it is the empty string *)
+Lemma try_ok_iff_l : forall chk a b sa sb e,
+  let r := teval a b sa sb e in
+  (s_variant (try_like chk r) = s2l "Ok" <-> exists v, r = inl v) /\
+  (forall v, r = inl v -> v <> TVStr [] ->
+     try_like chk r = encode (mkC (s2l "Ok") (payload_of_tval v)) /\
+     decode (try_like chk r) = mkC (s2l "Ok") (payload_of_tval v)) /\
+  (forall k, r = inr k -> s_variant (try_like chk r) = s2l "Err").
 Proof.
-  intros chk a b e. destruct (ceval a b e) as [v|k]; simpl.
+  intros chk a b sa sb e r. destruct r as [v|k]; simpl.
+  - split; [split; [intros _; exists v; reflexivity|intros _; destruct v; reflexivity]|].
+    split; [|intros k H; discriminate].
+    intros w H Hne. inversion H; subst w. destruct v as [z|[|c s]]; [split; reflexivity|congruence|split; reflexivity].
+  - split; [split; [discriminate|intros [v H]; discriminate]|].
+    split; [intros v H; discriminate|intros k' _; reflexivity].
+Qed.
+
+(* the integer instance in the old wording *)
+Lemma try_ok_iff_int_l : forall chk a b e,
+  let r := teval a b [] [] (TEInt e) in
+  (s_variant (try_like chk r) = s2l "Ok" <-> exists v, ceval a b e = inl v) /\
+  (forall v, ceval a b e = inl v ->
+     try_like chk r = encode (mkC (s2l "Ok") (PInt v)) /\ decode (try_like chk r) = mkC (s2l "Ok") (PInt v)) /\
+  (forall k, ceval a b e = inr k -> s_variant (try_like chk r) = s2l "Err").
+Proof.
+  intros chk a b e. simpl. destruct (ceval a b e) as [v|k]; simpl.
   - repeat split; eauto; intros; try congruence; inversion H; reflexivity.
-  - repeat split; try discriminate; try congruence.
-    intros [v H]; discriminate.
+  - repeat split; try discriminate; try congruence. intros [v H]; discriminate.
+Qed.
+
+(* ---------------------------------------------------------------- the Variable behind Ok must be fresh *)
+(* build_result_ok writes ONE payload channel. Over a fresh Variable that is exact: *)
+Lemma build_ok_fresh_exact_l : forall v, v <> TVStr [] ->
+  build_ok_t v = encode (mkC (s2l "Ok") (payload_of_tval v)) /\ decode (build_ok_t v) = mkC (s2l "Ok") (payload_of_tval v).
+Proof. intros [z|[|c s]] H; try congruence; split; reflexivity. Qed.
+
+(* over a Variable that is NOT fresh (kept between evaluations), an integer Ok is read back correctly iff the kept
+   string channel is empty - any earlier non-empty string payload would be bound instead of the number; a string Ok
+   is read back correctly whatever was kept *)
+Lemma build_ok_needs_fresh_l : forall init,
+  ((forall z, decode (build_ok_over init (TVInt z)) = mkC (s2l "Ok") (PInt z)) <-> s_str init = []) /\
+  (forall c s, decode (build_ok_over init (TVStr (c :: s))) = mkC (s2l "Ok") (PStr (c :: s))).
+Proof.
+  intros [e v h i s]. simpl. split; [split|].
+  - intro H. specialize (H 0). unfold decode, decode_payload in H. simpl in H.
+    destruct s; [reflexivity|]. simpl in H. discriminate.
+  - intros -> z. reflexivity.
+  - intros c s'. reflexivity.
+Qed.
+
+(* the Err built by build_result_err is read back correctly over ANY Variable: its string channel is never empty *)
+Lemma build_err_any_init_l : forall init msg chk,
+  decode (build_err_over init msg chk) = mkC (s2l "Err") (PStr (classify msg chk ++ s2l ": " ++ msg)) /\
+  build_err_over fresh_var msg chk = build_err msg chk.
+Proof.
+  intros init msg chk. split; [|reflexivity]. unfold decode, decode_payload, build_err_over.
+  cbn [s_has s_str s_int s_variant].
+  remember (classify msg chk ++ s2l ": " ++ msg) as t eqn:E. destruct t as [|c t]; [|reflexivity].
+  symmetry in E. apply app_eq_nil in E. destruct E as [_ E]. discriminate.
 Qed.
 
 (* ---------------------------------------------------------------- the class named in the Err *)
 Lemma try_err_class_l : forall chk k,
   try_like chk (inr k) = encode (mkC (s2l "Err") (PStr (class_name k ++ s2l ": " ++ err_msg k))).
-Proof. intros chk k. destruct k; destruct chk; vm_compute; reflexivity. Qed.
+Proof. intros chk k. destruct k as [ | | | |[|]]; destruct chk; vm_compute; reflexivity. Qed.
 
 (* a % 0 (former witness #25, repaired by /repo 4ea336a): classed as division by zero under both keywords *)
 Lemma try_modulo_example_l :
-  decode (try_like false (ceval 7 0 (CMod CA CB))) = mkC (s2l "Err") (PStr (s2l "DivisionByZeroError: Modulo by zero")) /\
-  decode (try_like true (ceval 7 0 (CMod CA CB))) = spec_try (ceval 7 0 (CMod CA CB)).
+  let r := teval 7 0 [] [] (TEInt (CMod CA CB)) in
+  decode (try_like false r) = mkC (s2l "Err") (PStr (s2l "DivisionByZeroError: Modulo by zero")) /\
+  decode (try_like true r) = spec_try r.
 Proof. vm_compute. split; reflexivity. Qed.
 
 (* classification of arbitrary texts: the order of the if-chain *)
@@ -50,19 +99,29 @@ Lemma classify_core_messages : forall chk,
   classify (err_msg RDiv0) chk = s2l "DivisionByZeroError" /\
   classify (err_msg RMod0) chk = s2l "DivisionByZeroError" /\
   classify (err_msg RBounds) chk = s2l "IndexOutOfBoundsError" /\
-  classify (err_msg RNull) chk = s2l "NullPointerError".
-Proof. intro chk. destruct chk; vm_compute; repeat split. Qed.
+  classify (err_msg RNull) chk = s2l "NullPointerError" /\
+  (forall q, classify (err_msg (RArgStr q)) chk = s2l "TypeCastError").
+Proof. intro chk. destruct chk; vm_compute; repeat split; intros [|]; reflexivity. Qed.
 
 (* ---------------------------------------------------------------- return and declaration contexts meet the property *)
 Lemma try_refines_l : forall p, safe_t p = true -> m_run_t p = s_run_t p.
 Proof.
-  intros [chk ctx a b e] Hs. unfold safe_t in Hs. simpl in Hs.
-  unfold m_run_t, s_run_t, match_events. simpl.
-  assert (Hsv : try_like chk (ceval a b e) = encode (spec_try (ceval a b e))).
-  { destruct (ceval a b e) as [z|k]; [reflexivity|]. apply try_err_class_l. }
+  intros [chk ctx a b sa sb e] Hs. unfold safe_t, t_eval in Hs. simpl in Hs.
+  apply andb_true_iff in Hs. destruct Hs as [Hc Hne].
+  unfold m_run_t, s_run_t, match_events, t_eval. simpl.
+  assert (Hsv : try_like chk (teval a b sa sb e) = encode (spec_try (teval a b sa sb e))).
+  { destruct (teval a b sa sb e) as [[z|[|c s]]|k].
+    - reflexivity.
+    - discriminate Hne.
+    - reflexivity.
+    - apply try_err_class_l. }
   rewrite Hsv. rewrite variant_encode.
-  assert (Hg : good_for_match (c_payload (spec_try (ceval a b e))) = true).
-  { destruct (ceval a b e) as [z|k]; [reflexivity|]. destruct k; reflexivity. }
+  assert (Hg : good_for_match (c_payload (spec_try (teval a b sa sb e))) = true).
+  { destruct (teval a b sa sb e) as [[z|[|c s]]|k].
+    - reflexivity.
+    - discriminate Hne.
+    - reflexivity.
+    - destruct k as [ | | | |[|]]; reflexivity. }
   rewrite (match_refines_l _ _ Hg).
   destruct ctx; try discriminate; reflexivity.
 Qed.
@@ -73,7 +132,7 @@ Lemma try_continues_refuted_l : forall p, (t_ctx p = TAsg \/ t_ctx p = TAsgMain)
   (t_ctx p = TAsgMain -> m_run_t p = mkR [EG1] XOk) /\
   (t_ctx p = TAsg -> m_run_t p = mkR [EG1; EAfter] XOk).
 Proof.
-  intros [chk ctx a b e] Hc. simpl in Hc. unfold m_run_t, s_run_t. simpl.
+  intros [chk ctx a b sa sb e] Hc. simpl in Hc. unfold m_run_t, s_run_t. simpl.
   assert (Hspec : forall o : list ev * exitc,
             In EG2 (r_events (match snd o with XOk => mkR ([EG1; EG2] ++ fst o ++ [EAfter]) XOk | x => mkR [EG1; EG2] x end))).
   { intros [evs x]. destruct x; simpl; auto. }
@@ -86,13 +145,31 @@ Qed.
 
 (* concrete instances: the former witness (declaration in main, repaired by /repo 982c54e) and the assignment form *)
 Lemma try_main_example :
-  let p := mkT false TMain 1 0 (CDiv CA CB) in
+  let p := mkT false TMain 1 0 [] [] (TEInt (CDiv CA CB)) in
   m_run_t p = mkR [EG1; EG2; EArm 1 (VStr (s2l "DivisionByZeroError: Division by zero")); EAfter] XOk /\
   s_run_t p = m_run_t p.
 Proof. vm_compute. split; reflexivity. Qed.
 
 Lemma try_assign_witness :
-  let p := mkT false TAsgMain 1 0 (CDiv CA CB) in
+  let p := mkT false TAsgMain 1 0 [] [] (TEInt (CDiv CA CB)) in
   m_run_t p = mkR [EG1] XOk /\
   s_run_t p = mkR [EG1; EG2; EArm 1 (VStr (s2l "DivisionByZeroError: Division by zero")); EAfter] XOk.
+Proof. vm_compute. split; reflexivity. Qed.
+
+(* the seeded shape as a model-level statement: a string-valued checked/try followed by an integer-valued one - each Ok
+   carries the value of its own operand *)
+Lemma try_string_then_int_example :
+  let p1 := mkT true TMain 1 0 (s2l "foo") (s2l "bar") (TEStr (SIdx CA)) in
+  let p2 := mkT false TRet 24 3 [] [] (TEInt (CDiv CA CB)) in
+  let p3 := mkT false TDecl 0 0 (s2l "foo") (s2l "bar") (TEStr (SCat SSA SSB)) in
+  safe_t p1 = true /\ safe_t p2 = true /\ safe_t p3 = true /\
+  m_run_t p1 = mkR [EG1; EG2; EArm 0 (VStr (s2l "bob")); EAfter] XOk /\
+  m_run_t p2 = mkR [EG1; EArm 0 (VInt 8); EAfter] XOk /\
+  m_run_t p3 = mkR [EG1; EG2; EArm 0 (VStr (s2l "foobar")); EAfter] XOk.
+Proof. vm_compute. repeat split; reflexivity. Qed.
+
+(* Ok("") is stored like Ok(0) (the recorded empty-string defect reached through try) *)
+Lemma try_empty_string_refuted_l :
+  let p := mkT false TRet 0 0 [] [] (TEStr (SCat SSA SSB)) in
+  m_run_t p = mkR [EG1; EArm 0 (VInt 0); EAfter] XOk /\ s_run_t p = mkR [EG1; EArm 0 (VStr []); EAfter] XOk.
 Proof. vm_compute. split; reflexivity. Qed.
